@@ -91,6 +91,15 @@ def gen_cases(tier, seed):
                           'end_when': 'done', 'chunk': 'all',
                           'stride': 1 if tier == 'thorough' else 3,
                           'cseed': 13})
+    # directed: a global request the application stops waiting for
+    for ending in ('close_then_wait', 'peer_close', 'abort', 'none'):
+        cases.append({'chans': [{'kind': 'rforward', 'srv': 'slow_open',
+                                 'acts': [], 'window': None, 'pause': False,
+                                 'open_timeout': True}],
+                      'ending': ending, 'concurrent': True,
+                      'end_when': 'done', 'chunk': 'all',
+                      'stride': 1 if tier == 'thorough' else 3,
+                      'cseed': 15})
     # directed: remote forwards and every way the connection can end
     for ending in ('close_then_wait', 'peer_close', 'abort', 'none',
                    'peer_disconnect'):
@@ -231,6 +240,16 @@ class _Srv(apps.RecServer):
         return sess
 
     def server_requested(self, listen_host, listen_port):
+        ctx = self.ctx
+        if ctx.get('slow_forward'):
+            # the answer to the global request is held back behind the gate
+            async def later():
+                await ctx['gate'].wait()
+                return True
+            ctx['gated'] += 1
+            t = asyncio.ensure_future(later())
+            ctx.setdefault('harness_tasks', []).append(t)
+            return t
         return True
 
     def connection_requested(self, dest_host, dest_port, orig_host,
@@ -364,6 +383,8 @@ async def _client_channel(ctx, tr, conn, i, spec, rng):
                     await tr.call(f'sftp_stat{i}', sftp.stat('.'))
             return
         if kind == 'rforward':
+            if spec['srv'] == 'slow_open':
+                ctx['slow_forward'] = True
             # a remote (listening) forward: its close needs a global request
             lst = await tr.call(f'forward_remote{i}', opener(
                 conn.forward_remote_port('127.0.0.1', 0, '127.0.0.1', 7)))
